@@ -1045,6 +1045,9 @@ class Interp:
                 return getattr(ast, m)(*args, **kwargs)          # a syntax-tree value built by the analysed code (pure data)
             if type(base) in (int, bool) and m in ("bit_length", "bit_count", "conjugate", "is_integer") or type(base) is float and m in ("is_integer", "hex", "as_integer_ratio"):
                 return getattr(base, m)(*args)
+            # a record (NamedTuple / dataclass / plain class instance) whose *field* holds a callable: `row.fold(x)` calls the value
+            if (isinstance(base, tuple) and m in getattr(type(base), "_fields", ())) or (isinstance(base, Synth) and m in getattr(base, "__dict__", {})):
+                return self.call_value(getattr(base, m), args, kwargs, n)
             raise Unsupported(f"method {m} on {type(base).__name__}")
         if isinstance(f, ast.Name):
             name = f.id
